@@ -13,7 +13,7 @@ META = {
             "items over {0,1,2,5}, all drop fractions with denominators <= 6 and /100, max_requests <= 3) that the references satisfy "
             "the statement: histogram over the whole range of the random source = w_i/sum(w), every window of sum(w) consecutive EDF "
             "choices holds item i w_i times, in-flight <= max and back to 0 (two negative controls).  The real randomWRR / edfWrr and "
-            "the real cluster_impl picker (newDropper, dropRequestsPerMillion, ClusterRequestsCounter) are run with the random source "
+            "the real cluster_impl picker (newDropper, dropRequestsPerMillion, ClusterRequestsCounter; max_requests 0..3 / unset also set through the real balancer's UpdateClientConnState, first configuration and updates) are run with the random source "
             "replaced by an enumerator that visits every value of the requested range; TLC accumulates the histograms from the recorded "
             "outputs and judges them against the property and the reference.",
     "note": "Decides exactly the enumerated weight lists, drop configurations (denominators 100 / 10^4 / 10^6 as produced by the EDS "
@@ -77,7 +77,10 @@ def run(ctx):
             if r["ev"] == "dropsum":
                 ctx.sample(r)
         elif r["ev"] == "cbbegin":
-            seq = [r["max"]]
+            if len(seq) > 1:
+                ctx.count(["cb", seq], nontrivial=len(seq) > 2)
+                ctx.cov["traces_validated_against_impl"] += 1
+            seq = [r["max"], r.get("via", "picker")]
         elif r["ev"] in ("cbpick", "cbdone"):
             seq.append(r.get("res", "done"))
         elif r["ev"] == "reset" and seq:
